@@ -35,6 +35,7 @@ import (
 	"syscall"
 	"time"
 
+	"connectrpc.com/connect"
 	"google.golang.org/protobuf/types/known/timestamppb"
 	"reduction.dev/reduction-protocol/handlerpb"
 	"reduction.dev/reduction/batching"
@@ -73,7 +74,7 @@ func (eng) Rule(mode string) string {
 // ---------- case format ----------
 
 type op struct {
-	Op   string `json:"op"` // ev | wm | ckpt | rescale | save
+	Op   string `json:"op"` // ev | wm | ckpt | release | rescale | save
 	Key  uint64 `json:"key,omitempty"`
 	Ns   uint64 `json:"ns,omitempty"`
 	Ek   uint64 `json:"ek,omitempty"`
@@ -303,8 +304,113 @@ type cluster struct {
 	adapters map[string]*opAdapter
 	amu      sync.Mutex
 	js       *jobSide // c14: the real snapshot store of the running job
+	shared   []tableRef // tables of the checkpoints the running operators were restored from
 	sr       *recSR   // c14: the source runner the job talks to (records StartCheckpoint)
 	asm      *jobs.Assembly
+}
+
+type tableRef struct {
+	uri        string
+	start, end []byte
+}
+
+// scriptedNeighbor answers NeedsTable for a real operator in a generated way: 0 = the operator's real answer,
+// 1 = an RPC error, 2 = the call is cancelled on the neighbour's side (an error wrapping context.Canceled),
+// 3 = slow: the real answer, but only after the harness has seen every other neighbour answer
+type scriptedNeighbor struct {
+	proto.UnimplementedOperator
+	real  *opAdapter
+	mode  int
+	asked chan struct{}
+	gate  chan struct{}
+}
+
+func (n *scriptedNeighbor) ID() string   { return n.real.id }
+func (n *scriptedNeighbor) Host() string { return "h" }
+func (n *scriptedNeighbor) NeedsTable(ctx context.Context, uri string) (bool, error) {
+	switch n.mode {
+	case 1:
+		return false, connect.NewError(connect.CodeUnavailable, fmt.Errorf("needs table %s: operator unavailable", uri))
+	case 2:
+		return false, connect.NewError(connect.CodeCanceled, fmt.Errorf("needs table %s: %w", uri, context.Canceled))
+	case 3:
+		select {
+		case n.asked <- struct{}{}:
+		default:
+		}
+		select {
+		case <-n.gate:
+		case <-ctx.Done():
+			return false, ctx.Err()
+		}
+	}
+	return n.real.NeedsTable(ctx, uri)
+}
+
+// release: operator d lets go of every old table that at least one neighbour still lists (what happens when d has
+// compacted the table away and dropped the restored checkpoint and its table object is collected). The REAL
+// OperatorPartition.ExclusivelyOwnsTable decides over the scripted neighbours; the decision is applied as the table
+// clean-up of dkv/sst/table.go applies it: the file is deleted only on (true, nil). Because a neighbour lists the file,
+// a correct decision never deletes it, whatever the neighbours' RPCs do.
+func (cl *cluster) release(d int, modes []int) (asked, deleted int) {
+	if d < 0 || d >= len(cl.ops) || len(cl.ops) < 2 {
+		return 0, 0
+	}
+	for _, t := range cl.shared {
+		if _, err := os.Stat(t.uri); err != nil {
+			continue
+		}
+		listed := false
+		var ns []operator.VerifNeighbor
+		var slow []*scriptedNeighbor
+		ranges := cl.ks.KeyGroupRanges()
+		for e, a := range cl.ops {
+			if e == d {
+				continue
+			}
+			if a.real.HandleNeedsTable(t.uri) {
+				listed = true
+			}
+			m := 0
+			if e < len(modes) {
+				m = modes[e] % 4
+			}
+			sn := &scriptedNeighbor{real: a, mode: m, asked: make(chan struct{}, 1), gate: make(chan struct{})}
+			if m == 3 {
+				slow = append(slow, sn)
+			}
+			ns = append(ns, operator.VerifNeighbor{KeyGroupRange: ranges[e], Operator: sn})
+		}
+		if !listed {
+			continue
+		}
+		part := operator.VerifNewOperatorPartition(ranges[d], ns)
+		type res struct {
+			ok  bool
+			err error
+		}
+		done := make(chan res, 1)
+		go func() {
+			ok, err := part.ExclusivelyOwnsTable(t.uri, t.start, t.end)
+			done <- res{ok, err}
+		}()
+		// a slow neighbour answers after it has been asked (or the call finished without waiting for it)
+		for _, sn := range slow {
+			select {
+			case <-sn.asked:
+			case r := <-done:
+				done <- r
+			}
+			close(sn.gate)
+		}
+		r := <-done
+		asked++
+		if r.err == nil && r.ok {
+			os.Remove(t.uri)
+			deleted++
+		}
+	}
+	return asked, deleted
 }
 
 // recSR is the job's view of source runner "sr0": it records the StartCheckpoint rounds the job broadcasts (the barriers
@@ -484,7 +590,7 @@ func coqEntry(k []byte, seq uint64, del bool, v []byte) string {
 }
 
 // layoutOf returns the Gallina ckdoc of checkpoint id of the given `checkpoints` file
-func layoutOf(uri string, id uint64, tableIDs map[string]int, st *layoutStats) (term string, err error) {
+func layoutOf(uri string, id uint64, tableIDs map[string]int, st *layoutStats, refs *[]tableRef) (term string, err error) {
 	defer func() {
 		if p := recover(); p != nil {
 			err = fmt.Errorf("layout: %v", p)
@@ -509,6 +615,9 @@ func layoutOf(uri string, id uint64, tableIDs map[string]int, st *layoutStats) (
 			for _, td := range lvl {
 				if _, ok := tableIDs[td.URI]; !ok {
 					tableIDs[td.URI] = len(tableIDs) + 1
+				}
+				if refs != nil {
+					*refs = append(*refs, tableRef{td.URI, []byte(td.StartKey), []byte(td.EndKey)})
 				}
 				t := sst.NewTableFromDocument(fs, noDelete{}, td)
 				var es []string
@@ -732,6 +841,21 @@ func execHistory(mode string, c *hx.Case) (*hx.Result, error) {
 				return nil, err
 			}
 			jobs_ = append(jobs_, map[string]any{"checkpoint": cl.ckptID, "retention_update_reached": o.Perm})
+		case "release":
+			if mode != "c06" {
+				continue
+			}
+			asked, deleted := cl.release(o.N, o.Perm)
+			if asked > 0 {
+				tags["shared-table-released"] = true
+				for e, m := range o.Perm {
+					if e != o.N && e < len(cl.ops) {
+						tags[fmt.Sprintf("neighbour-answer-%d", m%4)] = true
+					}
+				}
+			}
+			terms = append(terms, fmt.Sprintf("SRelease %d %d", asked, deleted))
+			jobs_ = append(jobs_, map[string]any{"release_at": o.N, "neighbour_modes": o.Perm, "asked": asked, "deleted": deleted})
 		case "rescale", "save":
 			if o.N < 1 || o.N > 8 {
 				continue
@@ -799,12 +923,13 @@ func (cl *cluster) restartFrom(ckpt *snapshotpb.JobCheckpoint, n int, tags map[s
 	m := len(recorded)
 	// layouts
 	layoutOK := true
+	var refs []tableRef
 	var recTerms []string
 	withState := 0
 	deepHandles := 0
 	for _, r := range recorded {
 		st := &layoutStats{}
-		doc, err := layoutOf(r.DkvFileUri, r.CheckpointId, tableIDs, st)
+		doc, err := layoutOf(r.DkvFileUri, r.CheckpointId, tableIDs, st, &refs)
 		if err != nil {
 			layoutOK = false
 			tags["LAYOUT-UNAVAILABLE"] = true
@@ -830,6 +955,7 @@ func (cl *cluster) restartFrom(ckpt *snapshotpb.JobCheckpoint, n int, tags map[s
 		tags["deep-tables-in-1-handle"] = true
 	}
 	// restart
+	cl.shared = refs
 	cl.stopAll()
 	if err := cl.deploy(n, ckpt); err != nil {
 		return "", nil, false, fmt.Errorf("deploy: %v", err)
